@@ -600,6 +600,9 @@ class BoolEval(object):
                 for t in seq[1:]:
                     acc = self.apply(args[0], [acc, t], {}, func, e)
                 return acc
+            if d in ('numpy.require', 'numpy.asarray', 'numpy.asanyarray', 'numpy.array', 'numpy.ascontiguousarray', 'numpy.copy') \
+                    and args and isinstance(args[0], Table):
+                return args[0]      # identity on the values of a mask (aliasing is rule C01.d(iv)'s business)
             if d in ('len',) and len(args) == 1 and isinstance(args[0], (list, tuple)):
                 return len(args[0])
             if d in ('list', 'tuple') and len(args) == 1 and isinstance(args[0], (list, tuple)):
